@@ -158,7 +158,7 @@ HANDCRAFTED = [
     ([1, 1, 3, 4], {1: [], 2: [10, 12], 3: [10], 4: [13], 5: [11]}),
     # a discarded fork that itself forks (block 2 with children 3 and 4) below a main branch 5-6-7 that stabilises: every body,
     # delta and cached output of the whole discarded subtree has to go, not only those along one of its branches
-    ([1, 2, 2, 1, 5, 6], {1: [], 2: [10], 3: [], 4: [], 5: [10], 6: [], 7: []}),
+    ([1, 1, 2, 2, 3, 6, 7], {1: [], 2: [10], 3: [10], 4: [], 5: [], 6: [], 7: [], 8: []}),
     # two discarded sibling forks, one of them two blocks long
     ([1, 1, 2, 1, 5, 6], {1: [], 2: [10], 3: [], 4: [], 5: [10], 6: [], 7: []}),
 ]
